@@ -14,8 +14,8 @@
 From Coq Require Import ZArith List Bool String Arith Permutation FloatOps SpecFloat.
 From Coq Require PrimFloat.   (* not imported: Print Assumptions then prints the primitives qualified *)
 From PF Require Import Lib.ListX Lib.PySlice Lib.FloatInt Gen.Tables.
-From PF Require Import Model.Dataset Model.DatasetSpec Model.DatasetRun Model.Split Legacy.DatasetLegacy.
-From PF Require Import Proofs.FloatIntFacts Proofs.DatasetProofs Proofs.SplitProofs.
+From PF Require Import Model.Dataset Model.DatasetSpec Model.DatasetRun Model.DatasetHeap Model.Split Legacy.DatasetLegacy.
+From PF Require Import Proofs.FloatIntFacts Proofs.DatasetProofs Proofs.DatasetHeapProofs Proofs.SplitProofs.
 Import ListNotations.
 Local Notation length := List.length (only parsing).
 
@@ -206,6 +206,64 @@ Theorem derived_never_alter_their_source : forall (prog : list tstep) (store : l
   Forall2 same_or_materialized store (firstn (length store) (fst (tree_run store prog))).
 Proof. exact tree_unchanged_proof. Qed.
 Print Assumptions derived_never_alter_their_source.
+
+(* ------------------------------------------------------------------ *)
+(* 3b. the same clause over a heap with the aliasing copy.copy creates  *)
+
+(* Model/DatasetHeap.v keeps the one Python object that the anchored code both
+   shares between copies and mutates in place - the statistics dict
+   `_col_stats` - as a heap cell; every Dataset object is its functional view
+   plus the address of its dict.  This model is compared with the real objects
+   on every run: after EVERY step the correspondence checks
+   list(obj.col_stats.keys()) of EVERY existing dataset (heap_case). *)
+
+(* the heap refines the functional store: projected to the functional views it
+   IS tree_run, step by step and observation by observation - so every theorem
+   above holds of the heap's objects *)
+Theorem heap_refines_functional_store : forall (prog : list hstep) (h : heap),
+  project (fst (heap_run h prog)) = fst (tree_run (project h) (map erase prog)) /\
+  map fst (snd (heap_run h prog)) = snd (tree_run (project h) (map erase prog)).
+Proof. exact heap_run_refines. Qed.
+Print Assumptions heap_refines_functional_store.
+
+(* dict addresses are always allocated (the `nth ... []` default in the model is never used) *)
+Theorem heap_stays_well_formed : forall (d0 : ds) (prog : list hstep), wf_heap (fst (heap_run (heap0 d0) prog)).
+Proof. exact wf_heap_run0. Qed.
+Print Assumptions heap_stays_well_formed.
+
+(* every operation other than materialize() - every row selection, shuffle,
+   split lookup, column selection, read - leaves every existing object (rows,
+   TensorFrame, columns, flags, dict address) and every statistics dict exactly
+   as it was, for one step and for whole histories *)
+Theorem derived_never_alter_their_source_heap : forall (h : heap) (s : hstep),
+  is_materialize s = false ->
+  firstn (length (objs h)) (objs (heap_step h s)) = objs h /\
+  firstn (length (objs h)) (heap_views (heap_step h s)) = heap_views h.
+Proof. exact non_materialize_step_views. Qed.
+Print Assumptions derived_never_alter_their_source_heap.
+
+Theorem derived_never_alter_their_source_heap_histories : forall (prog : list hstep) (h : heap),
+  forallb (fun s => negb (is_materialize s)) prog = true ->
+  exists new, objs (fst (heap_run h prog)) = objs h ++ new /\ dicts (fst (heap_run h prog)) = dicts h.
+Proof. exact non_materialize_run_preserves. Qed.
+Print Assumptions derived_never_alter_their_source_heap_histories.
+
+(* materialize(): its exact footprint.  No object other than the receiver
+   changes.  With re-bound statistics (col_stats=..., cache load) no existing
+   dict changes.  With statistics computed in place only the receiver's dict
+   changes, and it only gains keys at the end: exactly the receiver's copy.copy
+   relatives (same dict address) see more statistics keys, nobody loses one. *)
+Theorem materialize_footprint : forall (h : heap) (p : nat) (m : mat_mode),
+  wf_heap h ->
+  let h' := heap_step h (HOp p OMaterialize m) in
+  length (objs h') = length (objs h) /\
+  (forall q, q <> p -> nth_error (objs h') q = nth_error (objs h) q) /\
+  (forall a, a < length (dicts h) ->
+     (forall ob, hlookup h p = Some ob -> a <> stats_at ob) -> nth a (dicts h') [] = nth a (dicts h) []) /\
+  (forall a, a < length (dicts h) -> exists extra, nth a (dicts h') [] = nth a (dicts h) [] ++ extra) /\
+  (m = Rebind -> forall a, a < length (dicts h) -> nth a (dicts h') [] = nth a (dicts h) []).
+Proof. exact materialize_step_footprint. Qed.
+Print Assumptions materialize_footprint.
 
 (* ================================================================== *)
 (* 4. the gates                                                        *)
@@ -421,3 +479,16 @@ Example ex_generate :
      (mk_float false 6305039478318694 (-53)) (mk_float false 7205759403792794 (-56)) true
   = Some [2; 2; 1; 0; 0; 0; 0; 0; 0; 0]%Z.
 Proof. vm_compute. reflexivity. Qed.
+
+(* the heap: a col_select child materialized before its source; materializing
+   the source afterwards adds the key "f2" to the child's statistics (shared
+   dict), while with re-bound statistics it does not *)
+Example ex_heap_aliasing :
+  map snd (snd (heap_run (heap0 ex_fresh)
+     [HOp 0 (OColSelect ["rid"]%string) InPlace; HOp 1 OMaterialize InPlace; HOp 0 OMaterialize InPlace]))
+  = [[None; None]; [None; Some ["rid"; "y"]%string]; [Some ["rid"; "y"; "f2"]%string; Some ["rid"; "y"; "f2"]%string]]
+  /\
+  map snd (snd (heap_run (heap0 ex_fresh)
+     [HOp 0 (OColSelect ["rid"]%string) InPlace; HOp 1 OMaterialize InPlace; HOp 0 OMaterialize Rebind]))
+  = [[None; None]; [None; Some ["rid"; "y"]%string]; [Some ["rid"; "f2"; "y"]%string; Some ["rid"; "y"]%string]].
+Proof. vm_compute. split; reflexivity. Qed.
